@@ -98,13 +98,19 @@ def run(tier):
         return {"id": 0, "steps": [d], "opts": {"call": {
             "fn": "f", "pos": list(range(1, shape[0] + 1)), "named": [[n, 50 + i] for i, n in enumerate(shape[1])]}}}
 
-    for (params, names), o in zip(sigs, orc):
+    n_calls = 0
+    stats = {"def_err": 0, "ok": 0, "fail": 0, "calls": 0, "programs": 0}
+    distinct = set()
+    samples = []
+
+    def build(params, names, o, specs, meta):
+        nonlocal n_def_err, n_ok, n_fail
         d = defsrc(params, names)
         if o.get("def_error"):
             n_def_err += 1
             specs.append({"steps": [d + "emit(1)\n"]})
             meta.append(("def-reject", params, None, None))
-            continue
+            return
         lib = [["lib.star", d]]
         oks = [(c, sh, e) for (c, sh), e in zip(cls, o["res"]) if e is not None]
         bad = [(c, sh) for (c, sh), e in zip(cls, o["res"]) if e is None]
@@ -155,57 +161,72 @@ def run(tier):
                     meta.append(("fail:" + pth, params, c, None))
                 specs.append({"libs": lib, "steps": [f'load("lib.star", "f")\nemit(f({c}))\n']})
                 meta.append(("fail:loaded", params, c, None))
-    vlib.log(f"[C08] {len(specs)} programs ({n_ok} well-formed calls, {n_fail} ill-formed, {n_def_err} rejected signatures)")
-    for i, s_ in enumerate(specs):
-        s_["id"] = i
-        s_.setdefault("opts", {})["dialect"] = "all"
-    outs = vlib.run_sut("run", specs)
-    distinct = set()
-    n_calls = 0
-    for s_, (kind, params, ctext, exp), o in zip(specs, meta, outs):
-        if "crash" in o or "panic" in o:
-            res.violation("C08:crash", {"spec": s_, "out": o})
-            continue
-        steps = o["steps"]
-        if kind == "def-reject":
-            if steps[0]["err"] is None:
-                res.violation("C08:signature-accepted", {"spec": s_, "params": params, "note": "CPython rejects this parameter list"})
-        elif kind in ("ok", "bad-batch"):
-            got = steps[0]["out"]
-            n_calls += len(exp)
-            if o["libs"] and o["libs"][0]["err"]:
-                res.violation("C08:signature-rejected", {"spec": s_, "params": params, "err": o["libs"][0]["err"]})
-            elif got != exp or steps[0]["err"] is not None:
-                k = next((i for i, (a, b) in enumerate(zip(got, exp)) if a != b), min(len(got), len(exp)))
-                c, pth = ctext[min(k, len(ctext) - 1)]
-                what = "wrong-binding" if kind == "ok" else "accepted-ill-formed"
-                if steps[0]["err"] is not None and k >= len(got):
-                    what = "rejected-well-formed" if kind == "ok" else "batch-error"
-                res.violation(f"C08:{what}:{pth}", {"spec": s_, "params": params, "call": c, "path": pth,
-                                                  "expected": exp[k] if k < len(exp) else None,
-                                                  "got": got[k] if k < len(got) else None, "err": steps[0]["err"]})
-            elif kind == "ok":
-                for (c, pth), e in zip(ctext, exp):
-                    distinct.add((params, e))
-        elif kind == "ok-host":
-            n_calls += 1
-            st = steps[-1]
-            if st["res"] != exp:
-                res.violation("C08:wrong-binding:host", {"spec": s_, "params": params, "call": ctext, "expected": exp,
-                                                         "got": st["res"], "err": st["err"]})
-        elif kind == "fail:host":
-            n_calls += 1
-            st = steps[-1]
-            if st["err"] is None:
-                res.violation("C08:accepted-ill-formed:host", {"spec": s_, "params": params, "call": ctext, "got": st["res"]})
-        else:
-            n_calls += 1
-            if steps[0]["err"] is None or steps[0]["out"]:
-                res.violation(f"C08:accepted-ill-formed:{kind[5:]}", {"spec": s_, "params": params, "call": ctext,
-                                                                     "got": steps[0]["out"]})
+
+    def judge_outs(specs, meta, outs):
+        nonlocal n_calls
+        for s_, (kind, params, ctext, exp), o in zip(specs, meta, outs):
+            if "crash" in o or "panic" in o:
+                res.violation("C08:crash", {"spec": s_, "out": o})
+                continue
+            steps = o["steps"]
+            if kind == "def-reject":
+                if steps[0]["err"] is None:
+                    res.violation("C08:signature-accepted", {"spec": s_, "params": params, "note": "CPython rejects this parameter list"})
+            elif kind in ("ok", "bad-batch"):
+                got = steps[0]["out"]
+                n_calls += len(exp)
+                if o["libs"] and o["libs"][0]["err"]:
+                    res.violation("C08:signature-rejected", {"spec": s_, "params": params, "err": o["libs"][0]["err"]})
+                elif got != exp or steps[0]["err"] is not None:
+                    k = next((i for i, (a, b) in enumerate(zip(got, exp)) if a != b), min(len(got), len(exp)))
+                    c, pth = ctext[min(k, len(ctext) - 1)]
+                    what = "wrong-binding" if kind == "ok" else "accepted-ill-formed"
+                    if steps[0]["err"] is not None and k >= len(got):
+                        what = "rejected-well-formed" if kind == "ok" else "batch-error"
+                    res.violation(f"C08:{what}:{pth}", {"spec": s_, "params": params, "call": c, "path": pth,
+                                                      "expected": exp[k] if k < len(exp) else None,
+                                                      "got": got[k] if k < len(got) else None, "err": steps[0]["err"]})
+                elif kind == "ok":
+                    for (c, pth), e in zip(ctext, exp):
+                        distinct.add((params, e))
+            elif kind == "ok-host":
+                n_calls += 1
+                st = steps[-1]
+                if st["res"] != exp:
+                    res.violation("C08:wrong-binding:host", {"spec": s_, "params": params, "call": ctext, "expected": exp,
+                                                             "got": st["res"], "err": st["err"]})
+            elif kind == "fail:host":
+                n_calls += 1
+                st = steps[-1]
+                if st["err"] is None:
+                    res.violation("C08:accepted-ill-formed:host", {"spec": s_, "params": params, "call": ctext, "got": st["res"]})
+            else:
+                n_calls += 1
+                if steps[0]["err"] is None or steps[0]["out"]:
+                    res.violation(f"C08:accepted-ill-formed:{kind[5:]}", {"spec": s_, "params": params, "call": ctext,
+                                                                         "got": steps[0]["out"]})
+
+
+    def judge(specs, meta):
+        for i, s_ in enumerate(specs):
+            s_["id"] = i
+            s_.setdefault("opts", {})["dialect"] = "all"
+        outs = vlib.run_sut("run", specs)
+        stats["programs"] += len(specs)
+        if len(samples) < 2 and len(specs) > 1:
+            samples.append(specs[1]["steps"][0])
+        judge_outs(specs, meta, outs)
+
+    B = 10 if not q else len(sigs)
+    for i in range(0, len(sigs), B):
+        specs, meta = [], []
+        for (params, names), o in zip(sigs[i:i + B], orc[i:i + B]):
+            build(params, names, o, specs, meta)
+        judge(specs, meta)
+    vlib.log(f"[C08] {stats['programs']} programs ({n_ok} well-formed calls, {n_fail} ill-formed, {n_def_err} rejected signatures)")
     res.coverage = {
         "evaluations": n_calls,
-        "programs": len(specs),
+        "programs": stats["programs"],
         "distinct_nontrivial": len(distinct),
         "rule": "all parameter lists (positional-only '/', positional-or-keyword, defaults, *args, bare *, keyword-only "
                 "with/without default, **kwargs) up to the tier bound x all call shapes (k positional, named subsets, *seq of "
@@ -214,7 +235,7 @@ def run(tier):
                 "distinct_nontrivial = distinct (signature, bound-parameter tuple) outcomes",
         "signatures": len(sigs), "call_shapes": len(cls), "well_formed": n_ok, "ill_formed": n_fail,
         "rejected_signatures": n_def_err,
-        "samples": [specs[1]["steps"][0], specs[len(specs) // 2]["steps"][0]],
+        "samples": samples,
     }
     res.assumptions = ["CPython's call semantics are the reference for binding",
                        "calls are written in the argument order Starlark's grammar accepts (positional, named, *seq, **map)"]
